@@ -57,7 +57,11 @@ def merge(a, b):
         a[k] += b[k]
     a["outcomes"].update(b["outcomes"])
     a["known"].update(b["known"])
-    a["counters"].update(b["counters"])
+    for k, v in b["counters"].items():
+        if str(k).startswith(("max-", "points:")):
+            a["counters"][k] = max(a["counters"].get(k, 0), v)
+        else:
+            a["counters"][k] += v
     for k, v in b["known_examples"].items():
         a["known_examples"].setdefault(k, v)
     a["violations"].extend(b["violations"])
